@@ -110,7 +110,7 @@ theorem trans_newHeap (S : State) (held : Option (Nat × Nat)) (data : List UInt
   · simp only [hcap, if_true] at hinv ⊢
     by_cases hlen : 0 < data.length
     · simp only [gt_iff_lt, hlen, if_true]
-      refine ⟨⟨⟨hcap, hunseen⟩, trivial, ⟨Nat.zero_le _, Or.inl ⟨cap, ?_, hc⟩⟩, trivial⟩, hinv⟩
+      refine ⟨⟨⟨hcap, hunseen⟩, trivial, ⟨Nat.zero_le _, cap, ?_, hc⟩, trivial⟩, hinv⟩
       simp [Ledger.apply, Ledger.enter]
     · simp only [gt_iff_lt, hlen, if_false]
       exact ⟨⟨⟨hcap, hunseen⟩, trivial, trivial⟩, hinv⟩
@@ -246,17 +246,12 @@ theorem trans_regrow {S : State} {o : Nat} {x : Inner} (hx : getI S o = some x) 
     simp only [hc1, if_true] at ha
     exact ⟨⟨⟨hc1, hun⟩, trivial⟩, ha.congr hR⟩
 
-/-- a write into a buffer owned at some position, within its capacity -/
+/-- a write into a buffer owned at some position, within its (non-zero) capacity -/
 theorem trans_write {S : State} {held : Option (Nat × Nat)} {p : Option Nat} {b c : Nat}
-    (hown : OwnsAt S held p b c) (lo hi : Nat) (hlh : lo ≤ hi) (hhi : hi ≤ c) (hz : 0 < c ∨ hi = 0) :
+    (hown : OwnsAt S held p b c) (lo hi : Nat) (hlh : lo ≤ hi) (hhi : hi ≤ c) (hc : 0 < c) :
     Trans S held [Event.write b lo hi] S held := by
   intro L hL
-  refine ⟨⟨⟨hlh, ?_⟩, trivial⟩, hL⟩
-  by_cases hc : 0 < c
-  · exact Or.inl ⟨c, hL.owned_in hown hc, hhi⟩
-  · have h0 : c = 0 := by omega
-    subst h0
-    exact Or.inr ⟨by omega, hL.cap0_unseen hown⟩
+  exact ⟨⟨⟨hlh, c, hL.owned_in hown hc, hhi⟩, trivial⟩, hL⟩
 
 /-! ### the Vec held in a local variable -/
 
@@ -304,17 +299,19 @@ theorem trans_heldFree (S : State) (b c : Nat) :
     subst h0
     exact ⟨trivial, (LInvR.del_cap0 hL hown).congr (ownsAt_drop_held S b 0)⟩
 
-/-- the held Vec is handed to the caller (or leaked).  NOTE the degenerate case `c = 0`: the model
-emits `exportBuf` for a Vec that owns no allocation; the ledger check tolerates exactly that. -/
+/-- the held Vec is handed to the caller (or leaked): its buffer (if it owns one) is exported -/
 theorem trans_heldExport (S : State) (b c : Nat) :
-    Trans S (some (b, c)) [Event.exportBuf b] S none := by
+    Trans S (some (b, c)) (if c > 0 then [Event.exportBuf b] else []) S none := by
   intro L hL
   have hown : OwnsAt S (some (b, c)) none b c := rfl
-  obtain ⟨hd, hin, hout⟩ := LInvR.del hL hown
-  refine ⟨⟨?_, trivial⟩, hd.congr (ownsAt_drop_held S b c)⟩
   by_cases hc : 0 < c
-  · exact Or.inl (hin hc)
-  · exact Or.inr (hout (by omega))
+  · simp only [gt_iff_lt, hc, if_true]
+    obtain ⟨hd, hin, _⟩ := LInvR.del hL hown
+    exact ⟨⟨hin hc, trivial⟩, hd.congr (ownsAt_drop_held S b c)⟩
+  · simp only [gt_iff_lt, hc, if_false]
+    have h0 : c = 0 := by omega
+    subst h0
+    exact ⟨trivial, (LInvR.del_cap0 hL hown).congr (ownsAt_drop_held S b 0)⟩
 
 /-- the held Vec reallocates -/
 theorem trans_heldRegrow (S : State) (b c c1 : Nat) (hc1 : 0 < c1) :
